@@ -277,7 +277,7 @@ func (q *modelQuery) get(terms []string) bool {
 		return true
 	}
 	q.rounds++
-	if q.rounds > 60 || (!q.deadline.IsZero() && time.Now().After(q.deadline)) {
+	if q.rounds > 40 || (!q.deadline.IsZero() && time.Now().After(q.deadline)) {
 		q.err = "model reconstruction budget exhausted"
 		return false
 	}
@@ -917,7 +917,7 @@ func tryReplay(cfg *runConfig, o *Obligation, rec *replayRecord, light bool) (bo
 	if g.pa {
 		return false, "PA-level function: the model is over an abstraction (havoc'd calls); only a registered scenario can replay it"
 	}
-	q := &modelQuery{o: o, vals: map[string]*sexp{}, timeout: 10, light: light, deadline: time.Now().Add(90 * time.Second)}
+	q := &modelQuery{o: o, vals: map[string]*sexp{}, timeout: 10, light: light, deadline: replayDeadline()}
 	pkg := fn.Pkg.Pkg
 	rb := &rebuilder{q: q, g: g, st: g.entry, imports: map[string]bool{}}
 	rb.qual = func(p *types.Package) string {
@@ -1454,4 +1454,19 @@ func confirmBySolver(cfg *runConfig, o *Obligation, rb *rebuilder, testOut strin
 		return true, "the failing clause is unsatisfiable with the inputs and the real code's outputs pinned"
 	}
 	return false, "clause not refuted on the real outputs (" + r.Answer + ")"
+}
+
+var replayBudgetStart time.Time
+
+// replayDeadline: at most 40 s per failed obligation and 150 s per check run are spent on
+// reconstructing inputs from models.
+func replayDeadline() time.Time {
+	if replayBudgetStart.IsZero() {
+		replayBudgetStart = time.Now()
+	}
+	d := time.Now().Add(40 * time.Second)
+	if g := replayBudgetStart.Add(150 * time.Second); g.Before(d) {
+		return g
+	}
+	return d
 }
